@@ -154,6 +154,16 @@ def make_app_classes():
             self.w.rec.log(self.ep, 'cb_subscribe', iid=self.iid, role=self.role)
             if 'on_subscribe' in self.raise_in:
                 raise RuntimeError('app: on_subscribe raised')
+            act = getattr(self, 'in_subscribe', None)
+            if act:
+                # the canonical Reactive Streams pattern: the subscriber signals demand (or gives up) from inside on_subscribe
+                if act[0] == 'request':
+                    self.w.rec.log(self.ep, 'app_request_n', iid=self.iid, n=act[1], role=self.role, x=1)
+                    subscription.request(act[1])
+                elif act[0] == 'cancel':
+                    self.cancelled = True
+                    self.w.rec.log(self.ep, 'app_cancel', iid=self.iid, role=self.role)
+                    subscription.cancel()
 
         def on_next(self, value, is_complete=False):
             pid = self.w.payloads.resolve(value.data, value.metadata)
@@ -319,6 +329,8 @@ def make_app_classes():
                 raise RuntimeError('app: request_channel raised')
             pub = self.w.make_source(self.ep, iid, 'resp', pol) if pol.get('pub', True) else None
             sub = RecSubscriber(self.w, self.ep, iid, 'resp', pol.get('sub_raise_in')) if pol.get('sub', True) else None
+            if sub is not None:
+                sub.in_subscribe = pol.get('resp_in_subscribe')
             it = self.w.interaction(iid)
             it['resp_pub'] = pub
             it['resp_sub'] = sub
@@ -1142,6 +1154,7 @@ class World:
         else:
             sub = self.RecSubscriber(self, ep, pid, 'req', sub_raise_in)
             sub.auto_request = (policy or {}).get('auto_request', 0)
+            sub.in_subscribe = (policy or {}).get('in_subscribe')
         it['sub'] = sub
         if subscribe:
             self.subscribe(pid)
@@ -1176,6 +1189,7 @@ class World:
         else:
             sub = self.RecSubscriber(self, ep, pid, 'req')
             sub.auto_request = (policy or {}).get('auto_request', 0)
+            sub.in_subscribe = (policy or {}).get('in_subscribe')
         it['sub'] = sub
         if subscribe:
             self.subscribe(pid)
